@@ -87,6 +87,7 @@ inductive Step where
   | push                         -- the application thread: PushService.push_snapshot, all of it at once
   | pushBegin                    -- … or in its regions: check + id + pool.submit (the task can run from here on)
   | pushStore (id : Int)         --   then `_pending[id] = future` and the done-callback (run at once if already done)
+  | pushRejected                 -- push_snapshot while the executor refuses new work (`pool.submit` raises RuntimeError)
   | flushTimeout                 -- `future.result(10)` gives up on the task flush is waiting for (TimeoutError)
   | start (id : Int) (w : Nat)   -- worker `w` takes task `id` off the queue
   | finish (id : Int)            -- the body ends (as `f id` says)
@@ -150,8 +151,15 @@ def pushBegin (s : St) : St :=
                                 storing := s.storing ++ [id] }
   else s
 
+/-- `push_snapshot` when `self._pool.submit` raises: the statements of `submit_task` before it have run (an id is
+    used up when the handler is open), no task exists, the exception goes to the caller of `push_snapshot` -/
+def pushRejected (s : St) : St :=
+  let s := { s with callerRuns := s.callerRuns + pushInlineCalls }
+  if pushViaSubmit then { s with th := (submitRejected s.th).1, refused := s.refused + 1 } else s
+
 def step (f : Int → Outcome) (s : St) : Step → St
   | .push => push s
+  | .pushRejected => pushRejected s
   | .pushBegin => pushBegin s
   | .pushStore id =>
     if s.storing.contains id then
